@@ -11,6 +11,17 @@ from pyformlang.fcfg.feature_structure import FeatureStructure, FeatureStructure
 from pyformlang.fcfg.state import State, StateProcessed
 
 
+class _StartVariable(Variable):
+    """ The head of the start item of the parser: equal to nothing but itself,
+    whatever the variables of the grammar are called """
+
+    def __eq__(self, other):
+        return self is other
+
+    def __hash__(self):
+        return id(self)
+
+
 class FCFG(CFG):
     """ A class representing a feature context-free grammar
 
@@ -123,7 +134,7 @@ class FCFG(CFG):
         chart = [[] for _ in range(len(word) + 1)]
         # Processed[i] contains all production rule that are currently working until i.
         processed = StateProcessed(len(word) + 1)
-        gamma = Variable("Gamma")
+        gamma = _StartVariable("Gamma")
         dummy_rule = FeatureProduction(gamma, [self.start_symbol], FeatureStructure(), [FeatureStructure()])
         # State = (rule, [begin, end, dot position, diag)
         first_state = State(dummy_rule, (0, 0, 0), dummy_rule.features, ParseTree("BEGIN"))
